@@ -140,6 +140,11 @@ type Interp struct {
 	observed  []Observation
 	timeSeq   int
 	mode      map[string]int
+	snaps     []*storeLayer
+	initRoot  *ssa.Package
+	wc        *workerCache
+	pending   []pendingAssert
+	pc        []*sym.Term
 }
 
 type ChoiceRec struct {
@@ -174,10 +179,13 @@ func (in *Interp) stack() string {
 func (in *Interp) assertPC(c *sym.Term) {
 	if c.IsConst() {
 		if !c.B {
+			in.flushAsserts()
 			in.fail("infeasible", "")
 		}
 		return
 	}
+	in.flushAsserts()
+	in.pc = append(in.pc, c)
 	in.S.Assert(c)
 	in.Res.PCSize++
 }
@@ -209,6 +217,15 @@ func (in *Interp) Branch(c *sym.Term) bool {
 	}
 	in.S.SetTimeout(in.Ex.BranchTimeoutMs)
 	defer in.S.SetTimeout(in.Ex.TimeoutMs)
+	if in.Ex.SiteStats != nil {
+		site := "?"
+		if in.curFrame != nil {
+			site = in.curFrame.fn.String()
+		}
+		in.Ex.siteMu.Lock()
+		in.Ex.SiteStats[site]++
+		in.Ex.siteMu.Unlock()
+	}
 	rt := in.S.CheckWith(c)
 	in.Res.Queries++
 	if rt == sym.Unsat {
@@ -236,6 +253,12 @@ func (in *Interp) Branch(c *sym.Term) bool {
 	in.trace = append(in.trace, Decision{V: 1, N: 2, Kind: 'b'})
 	in.assertPC(c)
 	return true
+}
+
+// BranchLikely is Branch for conditions expected to hold: it asks for the negation
+// first, so the common case costs one query.
+func (in *Interp) BranchLikely(c *sym.Term) bool {
+	return !in.Branch(in.F.Not(c))
 }
 
 // Choose forks n ways.
@@ -349,13 +372,160 @@ func isErrorType(t types.Type) bool {
 	return ok && n.Obj().Pkg() == nil && n.Obj().Name() == "error"
 }
 
+// workerCache holds per-worker state that survives across paths: the term factory
+// and the (concrete, frozen) results of repo package initialisers.
+type workerCache struct {
+	F     *sym.Factory
+	inits map[*ssa.Package]map[*ssa.Global]*Cell
+	paths int
+}
+
+func (in *Interp) restoreInit(p *ssa.Package) bool {
+	if in.wc == nil || in.Ex.NoInitCache {
+		return false
+	}
+	gm, ok := in.wc.inits[p]
+	if !ok {
+		return false
+	}
+	for g, c := range gm {
+		if _, have := in.globals[g]; have {
+			continue
+		}
+		in.globals[g] = in.thawTop(c)
+	}
+	return true
+}
+
+// thawTop copies a cached top-level global cell (its content stays shared+frozen).
+func (in *Interp) thawTop(c *Cell) *Cell {
+	n := &Cell{T: c.T, Agg: c.Agg, V: c.V, Big: c.Big, Tag: c.Tag, Ext: c.Ext}
+	if c.Elems != nil {
+		n.Elems = make([]*Cell, len(c.Elems))
+		for i, e := range c.Elems {
+			n.Elems[i] = in.thawTop(e)
+		}
+	}
+	return n
+}
+
+func (in *Interp) freezeValue(v Value, seen map[interface{}]bool) {
+	switch x := v.(type) {
+	case *Cell:
+		if x == nil || seen[x] {
+			return
+		}
+		seen[x] = true
+		x.Frozen = true
+		if x.Elems != nil {
+			for _, e := range x.Elems {
+				in.freezeValue(e, seen)
+			}
+		} else if x.V != nil {
+			in.freezeValue(x.V, seen)
+		}
+	case *StructVal:
+		if x != nil {
+			for _, f := range x.F {
+				in.freezeValue(f, seen)
+			}
+		}
+	case *ArrayVal:
+		if x != nil {
+			for _, e := range x.E {
+				in.freezeValue(e, seen)
+			}
+		}
+	case SliceVal:
+		if x.Arr != nil {
+			in.freezeValue(x.Arr, seen)
+		}
+	case *MapVal:
+		if x == nil || seen[x] {
+			return
+		}
+		seen[x] = true
+		x.Frozen = true
+		for _, e := range x.E {
+			in.freezeValue(e.K, seen)
+			in.freezeValue(e.V, seen)
+		}
+	case IfaceVal:
+		in.freezeValue(x.V, seen)
+	case *Closure:
+		if x != nil {
+			for _, b := range x.Bind {
+				in.freezeValue(b, seen)
+			}
+		}
+	case TupleVal:
+		for _, e := range x {
+			in.freezeValue(e, seen)
+		}
+	}
+}
+
 func (in *Interp) initPackage(p *ssa.Package) {
 	if in.inited[p] {
 		return
 	}
 	in.inited[p] = true
+	if in.restoreInit(p) {
+		return
+	}
+	cacheable := in.wc != nil && !in.Ex.NoInitCache && len(in.trace) == 0 && len(in.inputs) == 0
+	var before map[*ssa.Global]bool
+	if cacheable {
+		before = map[*ssa.Global]bool{}
+		for g := range in.globals {
+			before[g] = true
+		}
+	}
+	defer func() {
+		if !cacheable {
+			return
+		}
+		gm := map[*ssa.Global]*Cell{}
+		seen := map[interface{}]bool{}
+		for g, c := range in.globals {
+			if before[g] || g.Pkg != p {
+				continue
+			}
+			// freeze what the cell refers to; keep a pristine copy of the top-level cell
+			cp := in.thawTop(c)
+			if c.Elems != nil {
+				for _, e := range c.Elems {
+					_ = e
+				}
+			}
+			in.freezeContent(c, seen)
+			gm[g] = cp
+		}
+		in.wc.inits[p] = gm
+	}()
 	if initfn := p.Func("init"); initfn != nil {
+		saved := in.initRoot
+		in.initRoot = p
+		st0 := in.steps
 		in.call(initfn, nil, nil)
+		in.initRoot = saved
+		if in.Ex.Verbose && os.Getenv("GOSYM_INITLOG") != "" {
+			fmt.Fprintf(os.Stderr, "init %s: %d steps\n", p.Pkg.Path(), in.steps-st0)
+		}
+	}
+}
+
+// freezeContent freezes everything reachable from a top-level global cell but not
+// the cell (and its own sub-cells) itself, which is copied per path.
+func (in *Interp) freezeContent(c *Cell, seen map[interface{}]bool) {
+	if c.Elems != nil {
+		for _, e := range c.Elems {
+			in.freezeContent(e, seen)
+		}
+		return
+	}
+	if c.V != nil {
+		in.freezeValue(c.V, seen)
 	}
 }
 
@@ -383,6 +553,11 @@ func (in *Interp) call(fn *ssa.Function, args []Value, bind []Value) Value {
 			return nil
 		}
 		if fn.Pkg != nil {
+			// lazy: a package is initialised when one of its globals is first touched
+			// (repo package initialisers are pure table builders)
+			if in.curFrame != nil && in.initRoot != fn.Pkg {
+				return nil
+			}
 			in.inited[fn.Pkg] = true
 		}
 	}
@@ -721,6 +896,7 @@ func (in *Interp) exec(fr *frame, ins ssa.Instruction) {
 		if sv.Len < int(at.Len()) {
 			panic(goPanic{msg: "runtime error: cannot convert slice to array pointer"})
 		}
+		in.ensureAgg(sv.Arr)
 		nc := &Cell{T: at, Agg: true, Elems: sv.Arr.Elems[sv.Off : sv.Off+int(at.Len())]}
 		in.set(fr, x, nc)
 	case *ssa.Select:
@@ -734,12 +910,6 @@ func (in *Interp) exec(fr *frame, ins ssa.Instruction) {
 	}
 }
 
-func (in *Interp) ensureAgg(c *Cell) {
-	if c.Elems == nil && !c.Agg {
-		// lazily expand a never-stored aggregate
-		in.storeInto(c, c.T, in.zero(c.T))
-	}
-}
 
 func (in *Interp) doCall(fr *frame, cc *ssa.CallCommon) Value {
 	args := make([]Value, 0, len(cc.Args)+1)
